@@ -79,7 +79,7 @@ func GenFS(r *core.Rand, dir string, cfg *FSCfg) *FSLayout {
 	hasRoot := r.Chance(4, 5)
 	if hasRoot {
 		l.LocalGOROOT = dir + "/goroot"
-		l.RemoteGOROOT = r.Pick([]string{"/usr/local/go", "/remote/sdk/go1.26", "/opt/go", dir + "/goroot"})
+		l.RemoteGOROOT = r.Pick([]string{"/usr/local/go", "/remote/sdk/go1.26", "/opt/go", dir + "/goroot", "/home/dev/src/go1.26", "/opt/pkg/mod/sdk/go"})
 		for _, f := range stdPkgs {
 			writeFile(l.LocalGOROOT+"/src/"+f, src(f))
 		}
@@ -89,6 +89,10 @@ func GenFS(r *core.Rand, dir string, cfg *FSCfg) *FSLayout {
 	// GOPATHs
 	ngp := r.Intn(4)
 	remoteNames := []string{"/home/builder/go", "/remote/gopath2", "/srv/ci/gp"}
+	if r.Chance(1, 3) {
+		// roots whose own name contains a "src" or "pkg/mod" component
+		remoteNames = []string{"/home/dev/src/go", "/data/srcdir/pkg/mod/gp", "/ci/pkg/mod/cache/gp"}
+	}
 	for i := 0; i < ngp; i++ {
 		lp := fmt.Sprintf("%s/gp%d", dir, i)
 		l.LocalGOPATHs = append(l.LocalGOPATHs, lp)
